@@ -243,6 +243,9 @@ func HarnessC22Ops1() { zzvRun() }
 // Pin recursive/direct of node 0 or 1 with a one-byte name. All queries against the pin model at the end.
 func HarnessC22Ops() { zzvRun() }
 
+// HarnessC22Ops3: the same with K=3 (thorough tier only).
+func HarnessC22Ops3() { zzvRun() }
+
 // HarnessC22Update: node 0 pinned recursively with a symbolic name; node TO (1 or 2) not pinned / pinned directly /
 // pinned recursively; then Update(0 -> TO or 0 -> 0, unpin symbolic) with symbolic fetch faults; all queries.
 func HarnessC22Update() {
